@@ -1210,9 +1210,12 @@ func (s *State) evalStringInfixExpression(operator token.Type, left, right objec
 		rightVal := right.(object.String).Value
 		return object.String{Value: leftVal + rightVal}
 	case operator == token.ASTERISK && rightIsInt:
-		n := len(leftVal) * int(rightVal)
 		if rightVal < 0 {
 			return s.Errorf("right operand of * on strings must be a positive integer, got %d", rightVal)
+		}
+		n, ok := object.MulLen(len(leftVal), rightVal)
+		if !ok {
+			return s.Errorf("result of * on strings too large: %d * %d", len(leftVal), rightVal)
 		}
 		object.MustBeOk(n / object.ObjectSize)
 		return object.String{Value: strings.Repeat(leftVal, int(rightVal))}
@@ -1234,7 +1237,11 @@ func (s *State) evalArrayInfixExpression(operator token.Type, left, right object
 		if rightVal < 0 {
 			return s.NewError("right operand of * on arrays must be a positive integer")
 		}
-		result := object.MakeObjectSlice(len(leftVal) * int(rightVal))
+		n, ok := object.MulLen(len(leftVal), rightVal)
+		if !ok {
+			return s.Errorf("result of * on arrays too large: %d * %d", len(leftVal), rightVal)
+		}
+		result := object.MakeObjectSlice(n)
 		for range rightVal {
 			result = append(result, leftVal...)
 		}
